@@ -121,7 +121,8 @@ def extract_low_mark_sites(src, tier):
                 else:
                     args[-1] += c
                 i += 1
-            args = [a.strip() for a in args if a.strip()]
+            args = [re.sub(r"//[^\n]*", "", a).strip() for a in args]
+            args = [a for a in args if a]
             if len(args) != 3:
                 raise Inconclusive("LowMarkBufReader::new call with %d arguments in %s" % (len(args), rel))
             sites.append((rel, args[2]))
